@@ -268,7 +268,7 @@ where
 	K: Keychain + 'a,
 {
 	// Create a potential output for this transaction
-	let key_id = keys::next_available_key(wallet, keychain_mask)?;
+	let key_id = keys::next_available_key_for(wallet, keychain_mask, &parent_key_id)?;
 	let keychain = wallet.keychain(keychain_mask)?;
 	let key_id_inner = key_id.clone();
 	let amount = slate.amount;
@@ -596,7 +596,11 @@ where
 				part_change
 			};
 
-			let change_key = wallet.next_child(keychain_mask)?;
+			// change belongs to the account the inputs come from
+			let change_key = match coins.first() {
+				Some(c) => keys::next_available_key_for(wallet, keychain_mask, &c.root_key_id)?,
+				None => wallet.next_child(keychain_mask)?,
+			};
 
 			change_amounts_derivations.push((change_amount, change_key.clone(), None));
 			parts.push(build::output(change_amount, change_key));
